@@ -6,4 +6,6 @@ def run(rep, tier, seed, replay):
     rep.assumptions = ["schema semantics: spec/ThriftSchema.tla (tolerant reader, defaults, retention); wire decoding of outputs by the "
                        "reference decoders; corpus = lib/schemas.py covering selection over the type-shape pool of DESIGN.md appendix B",
                        "shapes recorded in known_findings.json are quarantined in the corpus classification"]
-    return gencheck.run_property(rep, "C13", tier, seed, "model_checking")
+    __import__("common").build_harness()
+    tr = gencheck.decode_traces(rep, "C13", tier, seed)
+    return gencheck.run_property(rep, "C13", tier, seed, "model_checking", extra_cov=tr)
